@@ -1,7 +1,7 @@
 SPECIFICATION Spec
 CONSTANTS
   Keys = {1}
-  Mutant = "none"
+  Mutant = "propagate-always"
   Topos <- MCTopos
   GenMode = FALSE
   Depth = 0
